@@ -129,6 +129,7 @@ func mcEvents(family string, c sut.Config, o sut.Obs, iss map[string]int) []sut.
 		for _, b := range b12 {
 			ev(sut.Event{Act: "Probe", B: b})
 			ev(sut.Event{Act: "Probe", B: b, K: "alt1"})
+			ev(sut.Event{Act: "Probe", B: b, K: "bare"})
 			for _, m := range []string{c.LogoutMethod, "GET"} {
 				ev(sut.Event{Act: "Logout", B: b, Method: m})
 			}
